@@ -40,7 +40,7 @@ def main(pid, argv):
     ck = V.Check(pid, argv)
     ck.rule = ("the full product {LISTEN_PID matches (also written +pid), differs, unset, garbage} x LISTEN_FDS in {unset, '', foo, -1, 0, 1, 2, 3, +2, 02, 1x, ' 1', "
                "99999999999999999999} x LISTEN_FDNAMES in {unset, '', varlink, wrong arity, varlink first/middle/last/twice/absent, Varlink, 'varlink '} x kinds of the "
-               "passed descriptors (listening abstract unix socket, listening filesystem socket whose path is also the address passed to Bind, regular file, pipe, none), each case a fresh child process started with exactly that environment; the child "
+               "passed descriptors (listening abstract unix socket, listening filesystem socket whose path is also the address passed to Bind, regular file, pipe, none), x the protocol of the address passed to Bind (unix, or tcp while the inherited sockets are unix), each case a fresh child process started with exactly that environment; the child "
                "binds a Service and reports its listener's address. distinct = distinct cases; non-trivial = LISTEN_PID matches and LISTEN_FDS parses")
     ck.assumptions = ["net.FileListener's verdict on a descriptor is an oracle argument of the model (is_socket); here: listening unix socket vs regular file vs pipe vs closed"]
     ck.check_obligations()
@@ -65,6 +65,8 @@ def main(pid, argv):
                      and c.split()[3] in ("s", "f", "s,s", "f,s", "s,f,s", "s,s,s", "-", "S", "s,S", "S,s")]
             cases += rng.sample(full, 400)
             cases = list(dict.fromkeys(cases))
+        # the address passed to Bind may name another protocol than the inherited socket: when activation succeeds it is not inspected
+        cases += [c + " tcp" for c in cases if c.split()[0] in ("match", "plus") and "S" not in c.split()[3]][:: (1 if ck.tier == "thorough" else 3)]
     impl = C.run_sharded([bins["h_act"]], cases, jobs=14)
     model = V.run_model_parallel("act-run", cases)
     ck.evaluations = len(cases)
@@ -75,7 +77,7 @@ def main(pid, argv):
         ck.count("result:" + il.split(":")[0])
         if f[0] in ("match", "plus") and f[1] not in ("-", "EMPTY", "foo", "1x"):
             ck.distinct.add(c)
-        want = spec(*f)
+        want = spec(*f[:4])
         if il != want:
             nf += 1
             ck.fail("activation", c, "the service ended up on %s, the statement says %s" % (il, want), impl=il, model=ml)
